@@ -2,6 +2,7 @@ package linter
 
 import (
 	"fmt"
+	"slices"
 	"strings"
 
 	"github.com/ysugimoto/falco/v2/ast"
@@ -543,6 +544,41 @@ func (l *Linter) lintLogStatement(stmt *ast.LogStatement, ctx *context.Context) 
 	return types.NeverType
 }
 
+// legal return actions of each state-machine scope
+// https://developer.fastly.com/learning/vcl/using/#the-vcl-request-lifecycle
+func returnActionsInScope(scope int) []string {
+	switch scope {
+	case context.RECV:
+		// https://developer.fastly.com/reference/vcl/subroutines/recv/
+		return []string{"lookup", "pass", "error", "restart"}
+	case context.HASH:
+		// https://developer.fastly.com/reference/vcl/subroutines/hash/
+		return []string{"hash"}
+	case context.HIT:
+		// https://developer.fastly.com/reference/vcl/subroutines/hit/
+		return []string{"deliver", "pass", "error", "restart"}
+	case context.MISS:
+		// https://developer.fastly.com/reference/vcl/subroutines/miss/
+		return []string{"fetch", "deliver_stale", "pass", "error"}
+	case context.PASS:
+		// https://developer.fastly.com/reference/vcl/subroutines/pass/
+		return []string{"pass"}
+	case context.FETCH:
+		// https://developer.fastly.com/reference/vcl/subroutines/fetch/
+		return []string{"deliver", "deliver_stale", "hit_for_pass", "pass", "error", "restart"}
+	case context.ERROR:
+		// https://developer.fastly.com/reference/vcl/subroutines/error/
+		return []string{"deliver", "deliver_stale", "restart"}
+	case context.DELIVER:
+		// https://developer.fastly.com/reference/vcl/subroutines/deliver/
+		return []string{"deliver", "restart"}
+	case context.LOG:
+		// https://developer.fastly.com/reference/vcl/subroutines/log/
+		return []string{"deliver"}
+	}
+	return nil
+}
+
 func (l *Linter) lintReturnStatement(stmt *ast.ReturnStatement, ctx *context.Context) types.Type {
 	if ctx.ReturnType != nil {
 		if stmt.HasParenthesis {
@@ -597,36 +633,25 @@ func (l *Linter) lintReturnStatement(stmt *ast.ReturnStatement, ctx *context.Con
 
 	// legal return actions are different in subroutine.
 	// https://developer.fastly.com/learning/vcl/using/#the-vcl-request-lifecycle
-	expects := make([]string, 0, 3)
-
-	switch ctx.Mode() {
-	case context.RECV:
-		// https://developer.fastly.com/reference/vcl/subroutines/recv/
-		expects = append(expects, "lookup", "pass", "error", "restart")
-	case context.HASH:
-		// https://developer.fastly.com/reference/vcl/subroutines/hash/
-		expects = append(expects, "hash")
-	case context.HIT:
-		// https://developer.fastly.com/reference/vcl/subroutines/hit/
-		expects = append(expects, "deliver", "pass", "error", "restart")
-	case context.MISS:
-		// https://developer.fastly.com/reference/vcl/subroutines/miss/
-		expects = append(expects, "fetch", "deliver_stale", "pass", "error")
-	case context.PASS:
-		// https://developer.fastly.com/reference/vcl/subroutines/pass/
-		expects = append(expects, "pass")
-	case context.FETCH:
-		// https://developer.fastly.com/reference/vcl/subroutines/fetch/
-		expects = append(expects, "deliver", "deliver_stale", "hit_for_pass", "pass", "error", "restart")
-	case context.ERROR:
-		// https://developer.fastly.com/reference/vcl/subroutines/error/
-		expects = append(expects, "deliver", "deliver_stale", "restart")
-	case context.DELIVER:
-		// https://developer.fastly.com/reference/vcl/subroutines/deliver/
-		expects = append(expects, "deliver", "restart")
-	case context.LOG:
-		// https://developer.fastly.com/reference/vcl/subroutines/log/
-		expects = append(expects, "deliver")
+	// A subroutine that is used in several scopes may only return an action that is legal in every one of them.
+	var expects []string
+	first := true
+	for scope := context.RECV; scope <= context.LOG; scope <<= 4 {
+		if ctx.Mode()&scope == 0 {
+			continue
+		}
+		actions := returnActionsInScope(scope)
+		if first {
+			expects, first = actions, false
+			continue
+		}
+		common := make([]string, 0, len(expects))
+		for _, a := range expects {
+			if slices.Contains(actions, a) {
+				common = append(common, a)
+			}
+		}
+		expects = common
 	}
 
 	// If return statement does not have arguemnt, but Fastly requires next state in state-machine method like "vcl_recv"
